@@ -95,6 +95,17 @@ int main()
             for (Probe* p : ps) { p->blocked = (p->ret.load() == -1) ? 1 : 0; }
             double t = now_ms(); qe->close(); qf->close(); for (Probe* p : ps) p->t_rel = t; }});
     }
+    // ---- B2: close() racing with a put while two consumers are blocked: put; close back to back (queue non-empty at close).
+    //          Both consumers must return (one with the item, one with false once the queue is drained).
+    {
+        auto qr = std::make_shared<Q3>(); static std::vector<std::shared_ptr<Q3>> keep3; keep3.push_back(qr);
+        std::vector<Probe*> ps;
+        for (int i = 0; i < 2; ++i) { Probe* p = add("close_race/get/" + std::to_string(i)); ps.push_back(p); launch(p, [qr] { int v; return qr->get(v); }); }
+        actions.push_back({300, [ps, qr] {
+            for (Probe* p : ps) wait_started(p, 300);
+            for (Probe* p : ps) { p->blocked = (p->ret.load() == -1) ? 1 : 0; }
+            double t = now_ms(); qr->put(1, seconds(0)); qr->close(); for (Probe* p : ps) p->t_rel = t; }});
+    }
     // ---- C: close at fill level k of a capacity-3 queue, then drain
     for (int k : {0, 1, 3}) {
         Probe* p = add("drain/fill" + std::to_string(k));
